@@ -29,7 +29,7 @@ def hook(cfg, tshim, mode):
 
     import seqm.MolecularDynamics as MDm
 
-    rec = {"zero_com": [], "pad": [], "init_vel": None, "mass": None, "n_dof": None, "coords0": None}
+    rec = {"zero_com": [], "pad": [], "init_vel": None, "mass": None, "n_dof": None, "coords0": None, "first_step_vel": None}
     base = MDm.Molecular_Dynamics_Basic
     orig_zero = base._zero_com
 
@@ -74,14 +74,19 @@ def hook(cfg, tshim, mode):
         return out
 
     base.initialize_velocity = initialize_velocity
-    for cls in (MDm.Molecular_Dynamics_Basic, MDm.XL_BOMD):
+    import seqm.NonadiabaticDynamics as NDm
+
+    for cls in (MDm.Molecular_Dynamics_Basic, MDm.XL_BOMD, NDm.NonadiabaticDynamicsBase):
         orig_step = cls.__dict__["_do_integrator_step"]
 
         def make(orig_step):
             def step(self, i, molecule, *a, **kw):
+                if rec["first_step_vel"] is None:
+                    # the velocities the first integrator step starts from
+                    rec["first_step_vel"] = molecule.velocities.detach().clone().tolist()
                 r = orig_step(self, i, molecule, *a, **kw)
                 pad = molecule.species == 0
-                if pad.any():
+                if pad.any() and rec["coords0"] is not None:
                     dv = float(molecule.velocities[pad].abs().max())
                     dx = float((molecule.coordinates.detach()[pad] - rec["coords0"][pad]).abs().max())
                     rec["pad"].append([i + 1, dv, dx])
@@ -99,11 +104,20 @@ def hook(cfg, tshim, mode):
     return {"report": report}
 
 
-def gen(rng):
-    eng = rng.choice(["basic", "basic", "langevin", "xl", "ksa", "xl_damp"])
-    real = rng.random() < 0.03
+def gen(rng, pinned_sh=None):
+    eng = rng.choice(["basic", "basic", "langevin", "xl", "ksa", "xl_damp", "sh_model", "exc_basic"])
+    real = rng.random() < 0.03 and eng not in ("sh_model", "exc_basic")
+    if pinned_sh is not None:
+        eng, real = "sh", True
     cfg = {"engine": eng, "driver": "real" if real else "stub"}
-    if real:
+    if eng == "sh":
+        # the production surface-hopping engine (real electronic structure, finite-difference couplings)
+        cfg["batch"] = [["h2co"], ["h2co", "h2co"], ["h2co"]][pinned_sh % 3]
+        cfg["n_states"] = 2
+        cfg["rotate"] = rng.randrange(1 << 30)
+        cfg["steps"] = 2
+        cfg["scf_eps"] = 1e-8
+    elif real:
         cfg["batch"] = rng.choice([["h2o"], ["h2o", "hf"], ["nh3"]])
         cfg["rotate"] = rng.randrange(1 << 30)
         cfg["steps"] = rng.randint(2, 5)
@@ -115,8 +129,21 @@ def gen(rng):
         if rng.random() < 0.3:
             cfg["extra_pad"] = rng.randint(1, 2)
             cfg["pad_coords"] = True
-    cfg["dt"] = rng.choice([0.25, 0.5])
+    if eng == "sh_model":
+        cfg["batch"] = rng.choice([["h2o"], ["h2o", "h2o"], ["nh3", "h2o"]])
+        cfg["n_states"] = rng.randint(2, 4)
+        cfg["model_seed"] = rng.randrange(1 << 20)
+        cfg["substeps"] = rng.choice([None, 8])
+        cfg["initial_state"] = [rng.randint(1, cfg["n_states"]) for _ in cfg["batch"]]
+        cfg.pop("extra_pad", None)
+        cfg.pop("pad_coords", None)
+    if eng == "exc_basic":
+        cfg["n_states"] = rng.randint(1, 3)
+        cfg["active_state"] = rng.randint(0, cfg["n_states"])
+    cfg["dt"] = rng.choice([0.25, 0.5]) if eng not in ("sh", "sh_model") else 0.2
     cfg["temp"] = rng.choice([0.0, 10.0, 300.0, 300.0, 1000.0])
+    if pinned_sh is not None:
+        cfg["temp"] = [300.0, 300.0, 0.0][pinned_sh % 3]
     cfg["seed"] = rng.randrange(1 << 20)
     if eng in ("langevin", "xl_damp"):
         cfg["damp"] = rng.choice([5.0, 50.0])
@@ -127,11 +154,11 @@ def gen(rng):
     cfg["reuse_P"] = True
     small = any(len(mdsim.POOL[m][0]) <= 2 or m == "hcn" for m in cfg["batch"])
     u = rng.random()
-    user = rng.random() < 0.3
+    user = rng.random() < 0.3 or pinned_sh == 1
     if user:
         cfg["user_vel"] = {"seed": rng.randrange(1 << 20), "scale": rng.choice([0.005, 0.02])}
     moving = cfg["temp"] > 0 or user
-    if u < 0.4 or not moving:
+    if u < 0.4 or not moving or eng in ("sh", "sh_model"):
         cfg["remove_com"] = None
     elif u < 0.7 or small:
         cfg["remove_com"] = ["linear", rng.randint(1, 3)]
@@ -245,6 +272,21 @@ def _execute(record, root):
                 d = np.abs(uv[m][:nat] - v0).max()
                 failures.append(core.fail("user-velocities-altered", f"mol {m}: velocities supplied by the user differ from the step-0 velocities by up to {d:.3e} A/fs"))
             stats["probes"]["user_velocities"] = 1
+    # (2b) the first integrator step starts from the velocities recorded for step 0 (drawn or user-supplied)
+    fs = rep.get("first_step_vel")
+    if fs is not None:
+        fs = np.array(fs)
+        for m in range(nmol):
+            nat = int((sp[m] > 0).sum())
+            v0 = A[f"{m}:h5:velocities/values"][0]
+            d = np.abs(fs[m][:nat] - v0).max()
+            worst("first_step_vs_step0_velocities", d)
+            if d > 0.0:
+                what = "user-supplied" if cfg.get("user_vel") else f"drawn at {cfg['temp']} K"
+                failures.append(core.fail("first-step-velocities", f"mol {m}: the first integrator step starts from velocities that differ from the step-0 ({what}) velocities by up to {d:.3e} A/fs ({cfg['engine']})"))
+            if np.abs(fs[m][nat:]).max(initial=0.0) > 0.0:
+                failures.append(core.fail("padding-velocity", f"mol {m}: padding atoms enter the first step with velocity {np.abs(fs[m][nat:]).max():.3e}"))
+        stats["probes"]["first_step_velocities_checked"] = 1
     # (3) every COM removal
     for z in rep["zero_com"]:
         stats["zero_com_calls"] += 1
@@ -295,7 +337,9 @@ class C13(core.Check):
         recs = []
         for i in range(self.runs[tier]):
             rng = core.rng_for(seed, PROP, i)
-            recs.append({"i": i, "cfg": gen(rng), "rng_prefix": rng.choice([1, 3, 17, 1000]), "prefix_seed": rng.randrange(1 << 20)})
+            # records 1..3: the production surface-hopping engine (drawn, user-supplied, 0 K)
+            pinned = (i - 1) if 1 <= i <= 3 else None
+            recs.append({"i": i, "cfg": gen(rng, pinned_sh=pinned), "rng_prefix": rng.choice([1, 3, 17, 1000]), "prefix_seed": rng.randrange(1 << 20)})
         return recs
 
     def shrink_candidates(self, rec):
